@@ -10,7 +10,7 @@ import sys
 import time
 import traceback
 
-from .core import Obligation, PY, ROOT
+from .core import Obligation, PY, ROOT, pythonpath
 
 JOBS = int(os.environ.get('VERIF_JOBS', '16'))
 
@@ -75,7 +75,7 @@ def fp_value(v):
 
 def _run(task):
     cmd = [PY, '-m', 'vlib.symrun', task['module'], task['func'], json.dumps(task.get('args', {}))]
-    env = dict(os.environ, PYTHONPATH=ROOT + ':' + os.path.join(ROOT, 'harness'), PYTHONWARNINGS='ignore',
+    env = dict(os.environ, PYTHONPATH=pythonpath(os.path.join(ROOT, 'harness')), PYTHONWARNINGS='ignore',
                PYTHONHASHSEED='0')
     t0 = time.time()
     try:
